@@ -594,11 +594,165 @@ func c16CoercedSub() *engine.Sub {
 	}
 }
 
+// ---- RSA public keys of every size libp2p accepts ----
+
+type c16RsaCase struct {
+	Bits int `json:"bits"`
+	E    int `json:"e"`
+}
+
+func (c *c16RsaCase) Weight() int { return c.Bits }
+
+// syntheticRsaPub builds an RSA public key with a modulus of exactly the given size
+// (a public key needs no factorisation: any odd modulus with the top bit set will do).
+func syntheticRsaPub(bits, e int) (crypto.PubKey, []byte, error) {
+	n := new(big.Int).Lsh(big.NewInt(1), uint(bits-1))
+	n.Add(n, new(big.Int).Lsh(big.NewInt(0x5a5a5a5a5a5a5a5), uint(bits/2)))
+	n.Add(n, big.NewInt(int64(bits)*2+1))
+	std := &rsa.PublicKey{N: n, E: e}
+	pkix, err := x509.MarshalPKIXPublicKey(std)
+	if err != nil {
+		return nil, nil, err
+	}
+	pk, err := crypto.UnmarshalRsaPublicKey(pkix)
+	return pk, x509.MarshalPKCS1PublicKey(std), err
+}
+
+func c16RsaSub() *engine.Sub {
+	return &engine.Sub{
+		Name: "rsa-keys-of-every-size",
+		Rule: "RSA public keys with a modulus of 2048, 2056, 3072, 4096, 6144, 8184 and 8192 bits (libp2p accepts 2048..8192) and exponents 3 and 65537, built from a synthetic modulus: FromPubKey -> String (= independently computed did:key of the PKCS#1 encoding) -> Parse -> equal DID -> PubKey -> Equals(original) -> ToPubKey; identifiers of up to ~1.5 k characters; non-trivial = all",
+		Bound: func(string) string { return "7 modulus sizes x 2 exponents" },
+		Gen: func(tier string, emit func(any) bool) {
+			for _, bits := range []int{2048, 2056, 3072, 4096, 6144, 8184, 8192} {
+				for _, e := range []int{3, 65537} {
+					if !emit(&c16RsaCase{Bits: bits, E: e}) {
+						return
+					}
+				}
+			}
+		},
+		NewCase: func() any { return &c16RsaCase{} },
+		Run: func(ctx *engine.Ctx, c any) {
+			cs := c.(*c16RsaCase)
+			ctx.States(1)
+			ctx.Nontrivial(1)
+			ctx.Eval(1)
+			pub, pkcs1, err := syntheticRsaPub(cs.Bits, cs.E)
+			if err != nil {
+				panic(fmt.Sprintf("harness: libp2p refuses the synthetic RSA-%d key: %v", cs.Bits, err))
+			}
+			tag := fmt.Sprintf("rsa%d", cs.Bits)
+			d, err := did.FromPubKey(pub)
+			if err != nil {
+				ctx.Outcome("frompubkey-error")
+				ctx.Failf(cs, "frompubkey-fails/"+tag, "did.FromPubKey fails for an RSA-%d key: %v", cs.Bits, err)
+				return
+			}
+			s := d.String()
+			if want := didKeyString(uvarint(0x1205), pkcs1); s != want {
+				ctx.Failf(cs, "string-not-canonical/"+tag, "DID of an RSA-%d key prints as %.60s..., the did:key of its PKCS#1 encoding is %.60s...", cs.Bits, s, want)
+			}
+			p, err := did.Parse(s)
+			ctx.Trans(1)
+			if err != nil {
+				ctx.Outcome("parse-error")
+				ctx.Failf(cs, "printed-did-not-parsed/"+tag, "did.Parse rejects the printed DID (%d characters) of an RSA-%d key: %v", len(s), cs.Bits, err)
+				return
+			}
+			if p != d {
+				ctx.Failf(cs, "parsed-did-differs/"+tag, "Parse(String(d)) != d for an RSA-%d key", cs.Bits)
+			}
+			pk, err, pan := safePubKey(p)
+			ctx.Trans(1)
+			if pan != nil || err != nil {
+				ctx.Outcome("pubkey-error")
+				ctx.Failf(cs, "pubkey-extraction-fails/"+tag, "PubKey() of the parsed DID of an RSA-%d key fails: err=%v panic=%v", cs.Bits, err, pan)
+				return
+			}
+			if !pk.Equals(pub) {
+				ctx.Failf(cs, "extracted-key-differs/"+tag, "PubKey() of the DID of an RSA-%d key is a different key", cs.Bits)
+			}
+			if pk2, err := did.ToPubKey(s); err != nil || !pk2.Equals(pub) {
+				ctx.Failf(cs, "topubkey-differs/"+tag, "ToPubKey of the did:key of an RSA-%d key fails or differs: %v", cs.Bits, err)
+			}
+			ctx.Outcome("roundtrip-ok")
+		},
+	}
+}
+
+// ---- extracted keys stay what they were ----
+
+type c16KeptCase struct {
+	First  int `json:"first"`  // index into fixtures.All(): the DID whose key is extracted and kept
+	Second int `json:"second"` // the DID resolved afterwards
+}
+
+func c16KeptSub() *engine.Sub {
+	return &engine.Sub{
+		Name: "extracted-keys-are-kept-intact",
+		Rule: "every ordered pair of fixture DIDs (A, B): extract A's public key with PubKey() and with ToPubKey and keep them, then resolve B twice (PubKey, ToPubKey), then look at the kept keys: they still equal A's original key, their raw bytes are unchanged and they still verify a signature made with A's private key; non-trivial = A != B",
+		Bound: func(string) string { return "16 x 16 ordered pairs of fixture keys (7 algorithm/size classes)" },
+		Gen: func(tier string, emit func(any) bool) {
+			n := len(fixtures.All())
+			for a := 0; a < n; a++ {
+				for b := 0; b < n; b++ {
+					if !emit(&c16KeptCase{a, b}) {
+						return
+					}
+				}
+			}
+		},
+		NewCase: func() any { return &c16KeptCase{} },
+		Run: func(ctx *engine.Ctx, c any) {
+			cs := c.(*c16KeptCase)
+			a, b := fixtures.All()[cs.First], fixtures.All()[cs.Second]
+			if a.Err != nil || b.Err != nil {
+				return
+			}
+			ctx.States(1)
+			if cs.First != cs.Second {
+				ctx.Nontrivial(1)
+			}
+			ctx.Eval(4)
+			ctx.Trans(2)
+			k1, err1, pan1 := safePubKey(a.DID)
+			k2, err2, pan2 := safeToPubKey(a.DID.String())
+			if err1 != nil || err2 != nil || pan1 != nil || pan2 != nil {
+				ctx.Outcome("pubkey-error")
+				return // key-did-roundtrip's business
+			}
+			raw1, _ := k1.Raw()
+			raw2, _ := k2.Raw()
+			msg := []byte("kept-key message")
+			sig, err := a.Priv.Sign(msg)
+			if err != nil {
+				panic(err)
+			}
+			for i := 0; i < 2; i++ {
+				safePubKey(b.DID)
+				safeToPubKey(b.DID.String())
+			}
+			for i, k := range []crypto.PubKey{k1, k2} {
+				api := [2]string{"PubKey()", "ToPubKey"}[i]
+				raw, _ := k.Raw()
+				okSig, _ := k.Verify(msg, sig)
+				if !k.Equals(a.Pub) || !bytes.Equal(raw, [2][]byte{raw1, raw2}[i]) || !okSig {
+					ctx.Outcome("kept-key-changed")
+					ctx.Failf(cs, "extracted-key-changed-by-later-extraction/"+a.Alg, "the key obtained with %s from the DID of %s#%d no longer is that key after the DID of %s#%d was resolved (equals=%v, raw unchanged=%v, verifies=%v)", api, a.Alg, a.Idx, b.Alg, b.Idx, k.Equals(a.Pub), bytes.Equal(raw, [2][]byte{raw1, raw2}[i]), okSig)
+					return
+				}
+			}
+			ctx.Outcome("kept-ok")
+		},
+	}
+}
+
 func C16() *engine.Check {
 	return &engine.Check{
 		Property: "C16",
 		Level:    "model_checking",
-		Subs:     []*engine.Sub{c16RoundtripSub(), c16CoercedSub(), c16AltSub(), c16StringsSub()},
+		Subs:     []*engine.Sub{c16RoundtripSub(), c16RsaSub(), c16KeptSub(), c16CoercedSub(), c16AltSub(), c16StringsSub()},
 		Assumptions: []string{
 			"keys: committed fixtures plus one key per Generate* call per run; the conversion code has no key-dependent branches except leading-zero coordinates, which the 8 EC fixtures do not force",
 			"the canonical key material is computed independently: compressed SEC1 point for EC keys, raw 32 bytes for Ed25519, PKCS#1 DER for RSA",
